@@ -2,9 +2,11 @@
 
 proof          : coq/theories/Props/C11.v (Proofs/OrderProofs.v, Proofs/OrderL1D.v):
                  SequenceLearner and the averaging spec in full (state equality under every permutation of
-                 tells of distinct keys, = one tell_many); Learner1D `_partial`: every data-level component
-                 (data, pending, neighbors, neighbors_combined, bbox, scale) for any fixed pending set, batch =
-                 incremental on data/pending.  The loss tables of Learner1D are decided by the oracle below.
+                 tells of distinct keys, = one tell_many); Learner1D: every data-level component (data, pending,
+                 neighbors, neighbors_combined, bbox, scale) for any fixed pending set, batch = incremental on
+                 data/pending (`C11_l1d_partial`); for factor 1 and scalar outputs the table `losses`,
+                 loss(real=True) and _oldscale (`C11_l1d_losses_order_irrelevant`).  losses_combined,
+                 loss(real=False), ask() and the batch path are decided by the oracle below.
 correspondence : the permuted / batched histories are fed through Model/L1D.v executed with IEEE doubles and
                  compared bit for bit with the real Learner1D after every op (vm_compute inside Coq).
 search         : from-scratch oracle on the real classes: point sets produced by real ask-driven runs; every
@@ -28,7 +30,8 @@ from ..oracle_l1d import C01Oracle, check_combined
 THEOREMS = {n: "Props.C11" for n in [
     "C11_seq_order_irrelevant", "C11_avg_order_irrelevant", "C11_avg_order_irrelevant_Z",
     "C11_avg_order_irrelevant_Qc", "C11_avg_repeated_seed_ignored", "C11_avg_state_function_of_data",
-    "C11_l1d_partial", "C11_l1d_batch_partial", "C11_l1d_partial_Qc"]}
+    "C11_l1d_partial", "C11_l1d_batch_partial", "C11_l1d_partial_Qc",
+    "C11_l1d_losses_order_irrelevant", "C11_l1d_losses_order_irrelevant_Qc"]}
 
 RTOL = 1e-12            # "to rounding" for interpolated pieces / float sums
 ASK_NS = list(range(1, 11))
@@ -180,17 +183,19 @@ def l1d_ops(told, pend, mode, inflight, order=None, cut=None):
     return ops
 
 
-def l1d_run(cfg, ops, bracket=False):
-    """Run one delivery on a fresh real learner.  Returns (learner, recorder, steps, observation, errors)."""
+def l1d_run(cfg, ops, bracket=False, observe=True):
+    """Run one delivery on a fresh real learner.  Returns (learner, recorder, steps, observation, errors).
+    `observe`: record the state after every op (needed only for the deliveries sent to Coq)."""
     l, rec = I.make_learner(cfg)
     orc = C01Oracle(l, rec.f) if bracket else None
     steps = []
     for op in ops:
         out = I.apply_op(l, op)
-        rec.on = False
-        o = I.obs_of(l)
-        rec.on = True
-        steps.append((op, out, o))
+        if observe:
+            rec.on = False
+            o = I.obs_of(l)
+            rec.on = True
+            steps.append((op, out, o))
         if orc is not None:
             orc.note_scale()        # the batch path sets the scale without calling _update_scale
     rec.on = False
@@ -236,9 +241,14 @@ def l1d_case(chk, cfg, told, pend, inflight, rng, stats, cases, metas, max_exhau
     for j, (mode, order, cut) in enumerate(deliveries):
         ops = l1d_ops(told, pend, mode, inflight, order, cut)
         try:
-            l, rec, steps, obs, errs = l1d_run(cfg, ops, bracket=not factor1)
+            l, rec, steps, obs, errs = l1d_run(cfg, ops, bracket=not factor1, observe=j in picks)
         except OverflowError:
             return done         # loss * 1e12 overflows int(): outside the property (DESIGN C01 N)
+        except Exception as e:
+            chk.fail(f"C11:l1d:{mode} delivery raises {type(e).__name__}",
+                     f"Learner1D({cfg}) pending={pend} inflight={inflight}: {mode} delivery in order {list(order)} cut {cut} "
+                     f"raised {type(e).__name__}: {str(e)[:160]}", dict(replay, mode=mode, order=list(order), cut=cut))
+            return done
         done += 1
         stats["deliveries"] += 1
         stats[mode] += 1
@@ -273,7 +283,7 @@ def l1d_case(chk, cfg, told, pend, inflight, rng, stats, cases, metas, max_exhau
 
 def run_l1d(chk, stats, cases, metas):
     quick = chk.quick
-    ncases = 160 if quick else 1200
+    ncases = 160 if quick else 700
     variants = ["none", "random", "first_interval", "left_of_first"]
     for k in range(ncases):
         rng = chk.rng("l1d", k)
@@ -533,8 +543,10 @@ def run(chk: Check) -> int:
         sigs[f["signature"]] = sigs.get(f["signature"], 0) + 1
     chk.extra.update({"feature_counts": stats, "cases_compared_in_coq": len(cases), "mismatches": len(mism), "failure_signatures": sigs,
                       "exhaustive": False,
-                      "partial": ["C11_l1d_partial: loss tables (los, losc), loss() and ask() of Learner1D are not covered by a "
-                                  "theorem; they are decided by the oracle on the real class and the bit-exact correspondence"]})
+                      "partial": ["Learner1D: losses_combined, loss(real=False), ask(), vector outputs for the loss table and the batch "
+                                  "path of tell_many are not covered by a theorem (C11_l1d_partial + C11_l1d_losses_order_irrelevant cover "
+                                  "the data-level components and, for factor 1 / scalar outputs, `losses`, loss(real=True), _oldscale); "
+                                  "they are decided by the oracle on the real class and the bit-exact correspondence"]})
     chk.log(f"correspondence: {len(cases)} cases, {len(mism)} mismatches; {stats}")
     return chk.finish(
         rule="result sets come from real ask-driven runs (so both end points are included) on 8 function shapes (scalar and vector), "
@@ -547,7 +559,7 @@ def run(chk: Check) -> int:
              "(dyadic values: exact; gaussian: 1e-12 x conditioning) and SequenceLearner (exact) likewise incl. repeated seeds; "
              "non-trivial = at least one pending point and more than 4 deliveries (1D) / at least 3 results (avg, seq)",
         assumptions=["hand-written model Model/L1D.v tied to learner1D.py by the sampled bit-exact correspondence",
-                     "Learner1D loss tables: decided by the oracle, not by a theorem (C11_l1d_partial)",
+                     "Learner1D losses_combined / ask / batch path: decided by the oracle, not by a theorem (`_partial`)",
                      "the averaging theorems are about Model/AvgSpec.v (exact arithmetic); floats: to rounding, by the oracle"])
 
 
